@@ -21,6 +21,7 @@ request lists of its approved rounds.
 -/
 import Hfsm.Proofs.Pins
 import Hfsm.Proofs.Witness
+import Hfsm.Proofs.Reach
 
 set_option linter.unusedSectionVars false
 
@@ -214,5 +215,77 @@ Theorems that constitute property C09 (for `Props/INDEX.json`):
     replay_reproduces_single_round_step_partial, replay_consults_no_guard
     replay_empty_history (N4), replayTransitions_empty
 -/
+
+end Hfsm.Props.C09
+
+/-! ## end-to-end (composition with C01)
+
+`m.atProcess o = some m'` (Proofs/Reach.lean): the API call `o` (`update`, `react`, an immediate transition) on
+`m` hands `m'` to `processRequest` (`Api.step m o = m'.processRequest`, `m'.root = m.root`).  For REACHABLE
+instances (`ReachableOf shape cfg m`: `Mach.create shape cfg` followed by any history of API calls) the
+configuration switches are those of the construction, the numbering hypothesis `IdsBelow` of the partial theorem
+follows from C01's invariant, and `NoMarks` holds on the histories `QuietOf` describes (NOT after `load` /
+`replayTransitions` / a `replayEnter` that answered `false`: see GAP 2 of Proofs/Reach.lean). -/
+namespace Hfsm.Props.C09
+open Hfsm Hfsm.Mach
+variable {U : Type} [UtilArith U] {shape : Shape} {cfg : Config} {m m' : Mach U} {o : Api.Op}
+
+/-- After `update()`, `react()` or an immediate transition on a reachable instance constructed with the history
+feature, `previousTransitions` is exactly the concatenation of the request lists of the approved rounds of that
+call (empty when the call found the queue empty). -/
+theorem history_is_approved_rounds_reachable (h : ReachableOf shape cfg m) (hh : cfg.history = true)
+    (hp : m.atProcess o = some m') :
+    (Api.step m o).w.previous = if m'.w.requests.isEmpty then [] else approvedOf m'.stepLog := by
+  rw [Mach.atProcess_step hp]
+  exact history_is_approved_rounds m' (by rw [Mach.atProcess_cfg hp, h.cfg_history]; exact hh)
+
+/-- … nothing else: when no round of the call was approved the history is empty. -/
+theorem history_empty_when_nothing_approved_reachable (h : ReachableOf shape cfg m) (hh : cfg.history = true)
+    (hp : m.atProcess o = some m') (hnone : ∀ r ∈ m'.stepLog, r.2 ≠ .approved) :
+    (Api.step m o).w.previous = [] := by
+  rw [Mach.atProcess_step hp]
+  exact history_empty_when_nothing_approved m' (by rw [Mach.atProcess_cfg hp, h.cfg_history]; exact hh) hnone
+
+/-- **`lastTransitionTo` after a single approved immediate transition** on a quiet reachable instance: the
+hypotheses `IdsBelow`, `N ≤ stateCount`, `NoMarks`, `history` of the partial theorem are discharged; what is left
+is what makes the statement true at all (one round, plain machine, plain kind, destination not the root). -/
+theorem single_request_last_transition_reachable (hq : QuietOf shape cfg m) (he : m.w.err = none)
+    (hh : cfg.history = true) (k : Kind) (d : Nat) (p : Option Nat)
+    (hlog : (m.request k d p).stepLog = [([⟨none, d, k, p⟩], .approved)])
+    (hplain : m.root.Plain = true) (hk : k.plain = true) (hns : k ≠ .schedule) (hd0 : d ≠ 0) :
+    (m.immediate k d p).w.previous = [⟨none, d, k, p⟩] ∧
+    ∀ id ∈ ((m.request k d p).stepStart.applyAll [⟨none, d, k, p⟩] 0).root.touched, id < shape.stateCount →
+      m.root.isActive id = false → (m.immediate k d p).lastTransitionTo id = some ⟨none, d, k, p⟩ := by
+  have h := hq.reachable
+  have hp : m.atProcess (.immediate k d p) = some (m.request k d p) := rfl
+  have hc : (m.request k d p).w.cfg = m.w.cfg := Mach.atProcess_cfg hp
+  have := single_request_last_transition_partial (m.request k d p) ⟨none, d, k, p⟩ m.w.cfg.stateCount hlog
+    (by rw [hc, h.cfg_history]; exact hh) hplain (h.idsBelow he) (by rw [hc]; exact Nat.le_refl _)
+    (hq.noMarks he) hk hns hd0
+  rw [hc, h.stateCount] at this
+  exact this
+
+/-- **Replay between two reachable instances of the same machine.**  The authority `a` processes a call in one
+approved round with requests `ts`; a replica `r` of the same `shape` (any configuration, any history) holding the
+same registry replays `ts`: it answers `true` and ends with the authority's registry.  (`hcfg` of the partial
+theorem is discharged: both have `shape.stateCount` states.) -/
+theorem replay_reproduces_single_round_step_reachable {cfgA cfgR : Config} {a a' r : Mach U} {ts : List Transition}
+    (ha : ReachableOf shape cfgA a) (hr : ReachableOf shape cfgR r) (hp : a.atProcess o = some a')
+    (hlog : a'.stepLog = [(ts, .approved)]) (hroot : r.root = a.root) (hplain : a.root.Plain = true)
+    (hk : ∀ t ∈ ts, t.kind.plain = true) (hd : ∀ t ∈ ts, t.dest < shape.stateCount) :
+    (r.replayTransitions ts).2 = true ∧ (r.replayTransitions ts).1.root = (Api.step a o).root ∧
+    (r.replayTransitions ts).1.w.previous = ts := by
+  have hc : a'.w.cfg = a.w.cfg := Mach.atProcess_cfg hp
+  have hra : a'.root = a.root := Mach.atProcess_root hp
+  rw [Mach.atProcess_step hp]
+  exact replay_reproduces_single_round_step_partial a' r ts hlog (hroot.trans hra.symm)
+    (by rw [hc, ha.stateCount, hr.stateCount]) (by rw [hra]; exact hplain) hk
+    (by rw [hc, ha.stateCount]; exact hd)
+
+/-- a concrete non-trivial reachable instance exists; it is quiet, and its last call recorded a history -/
+example : Reachable (Api.run Demo.mach Demo.prog) := Demo.reachable.reachable
+example : ∃ m : Mach Demo.DU, QuietOf Demo.shape Demo.cfg m ∧ m.w.err = none ∧ Demo.cfg.history = true ∧
+    m.root.Plain = true ∧ m.w.previous = [⟨none, 1, .change, none⟩] :=
+  ⟨_, Demo.quiet, Demo.err_none, by decide, by decide +kernel, by decide +kernel⟩
 
 end Hfsm.Props.C09
